@@ -42,6 +42,7 @@ def check_trace(tr, st, sink, with_index, res, tagp='C08'):
     declared_groups = set()
     root_declared = False
     segs = []
+    pstate = None
     for i, rec in enumerate(tr.calls):
         if not rec['accepted']:
             res.probe('rejected-call')
@@ -51,7 +52,8 @@ def check_trace(tr, st, sink, with_index, res, tagp='C08'):
             continue
         a, b = rec['before'], rec['after']
         try:
-            seg = parser.parse_segment(data[:b], a)
+            seg = parser.parse_segment(data[:b], a, state=pstate)
+            pstate = seg['state']
         except Structural as exc:
             out.append(V(tagp + '.segment-invalid', 'call %d: %s' % (i, exc.what), **exc.sig))
             return out
